@@ -40,6 +40,12 @@ def run(ctx):
     r5_grid(ctx)
     shared.whole_cell_consumption(ctx, 'R6')
     c01.r3_export_order(ctx, g, None, 'R7')
+    # cells are taken literally by the line reader, and every token is built by a listener created for that token alone
+    ctx.alias = {'R1': 'R3', 'R2': 'R3'}
+    from . import c02, c12
+    c02.r1_reader(ctx)
+    c12.r2_fresh_listener(ctx, ctx.prog.func(f'{N.KERN_IMP}.KernSpineImporter.import_token'))
+    ctx.alias = {}
     from .. import regen
     regen.check(ctx, 'R8')
 
@@ -232,6 +238,7 @@ def r3_verbatim(ctx, handlers):
                   f'{clsname} receives `{src(calls[0].args[0]) if calls and calls[0].args else None}`')
     c04.r6_chords(ctx)
     shared.plain_encodings_keep_verbatim_text(ctx, 'R3')
+    c01.note_receives_decorations(ctx, 'R2')
 
 
 def r4_joins(ctx):
